@@ -16,7 +16,7 @@ from __future__ import annotations
 
 import ast
 
-from ..astutil import U, view, names_in, stmt_index, compare_parts
+from ..astutil import U, view, names_in, stmt_index, compare_parts, branch_table, flat_tests, const_strings
 from ..core import Ctx
 from ..model import dotted
 from ..rules import empty, refine, render
@@ -24,44 +24,29 @@ from ..rules import empty, refine, render
 IMG = "droplets.image_analysis"
 
 
-def isinstance_chain(fv, stmt):
-    """[(class name text, body)] + else body for an if/elif chain of isinstance tests"""
-    out = []
-    cur = stmt
-    while isinstance(cur, ast.If):
-        t = cur.test
-        if isinstance(t, ast.Call) and dotted(t.func) == "isinstance" and len(t.args) == 2:
-            out.append((U(t.args[0]), U(t.args[1]), cur.body))
-        else:
-            return None, None
-        if len(cur.orelse) == 1 and isinstance(cur.orelse[0], ast.If):
-            cur = cur.orelse[0]
-        else:
-            return out, cur.orelse
-    return out, []
-
-
 def check_grid_dispatch(ctx: Ctx):
     m = ctx.model
     fi = m.func(f"{IMG}.locate_droplets_in_mask")
     fv = view(m, fi)
     site = fi.qualname
-    chain = None
-    for s in fi.node.body:
-        if isinstance(s, ast.If):
-            chain, els = isinstance_chain(fv, s)
-            break
-    if not chain:
-        ctx.undecided("EXHAUST", site, fi, "no isinstance dispatch on the grid")
+    table, default = branch_table(fi.node.body)
+    if not table:
+        ctx.undecided("EXHAUST", site, fi, "no dispatch on the grid")
         return
     want = {"CartesianGrid": "_locate_droplets_in_mask_cartesian", "SphericalSymGridBase": "_locate_droplets_in_mask_spherical",
             "CylindricalSymGrid": "_locate_droplets_in_mask_cylindrical"}
     got = {}
-    for subj, cls, body in chain:
+    tail = list(default)
+    for test, body in table:
+        if not (isinstance(test, ast.Call) and dotted(test.func) == "isinstance" and len(test.args) == 2):
+            continue
+        subj = U(fv.expand(test.args[0], test, allow_mutated=True))
         if subj != f"{fi.params[0]}.grid":
             continue
-        if len(body) == 1 and isinstance(body[0], ast.Return) and isinstance(body[0].value, ast.Call):
-            got[cls] = (dotted(body[0].value.func), [U(a) for a in body[0].value.args])
+        cls = U(test.args[1])
+        rets = [x for x in body if isinstance(x, ast.Return) and isinstance(x.value, ast.Call)]
+        if rets:
+            got[cls] = (dotted(rets[-1].value.func), [U(fv.expand(a, rets[-1], allow_mutated=True)) for a in rets[-1].value.args])
         elif body and isinstance(body[-1], ast.Raise):
             got[cls] = ("raise", [])
     for cls, fn in want.items():
@@ -70,10 +55,35 @@ def check_grid_dispatch(ctx: Ctx):
                    f"grids of family {cls} are not dispatched to {fn}(mask) (found {got.get(cls)})")
         if ok and not m.has_func(f"{IMG}.{fn}"):
             ctx.violate("EXHAUST", f"{site}:{cls}", fi, f"{fn} does not exist")
-    # order: a subclass test must not be shadowed — the three families are disjoint in py-pde; other grids raise
-    tail_ok = els and isinstance(els[-1], ast.Raise)
+    # everything else raises: the default tail ends in a raise, as does every further branch of the table
+    other = [body for test, body in table if not (isinstance(test, ast.Call) and U(test.args[1]) in want)]
+    tail_ok = bool(tail) and isinstance(tail[-1], ast.Raise) and all(b and isinstance(b[-1], ast.Raise) for b in other)
     ctx.decide(bool(tail_ok), "EXHAUST", f"{site}:other", fi, "unsupported grids raise explicitly",
                "a grid of an unsupported family falls through the dispatch and returns None instead of raising")
+
+
+def threshold_table(fv, fi):
+    """[(set of rule names, body)], default body — from the dispatch on the threshold rule"""
+    from ..cfg import body_statements
+
+    for s in body_statements(fi.node.body):
+        if isinstance(s, ast.If) and "threshold" in names_in(s.test) and const_strings(s.test):
+            # find the statement list that contains s
+            si = stmt_index(fv)
+            p = si.parent.get(id(s))
+            block = fi.node.body if p is None or p[0] is None else getattr(p[0], p[1])
+            idx = [i for i, x in enumerate(block) if x is s][0]
+            table, default = branch_table(block[idx:])
+            out = []
+            for test, body in table:
+                names = set(const_strings(test))
+                if names and "threshold" in names_in(test):
+                    out.append((names, body))
+                else:
+                    default = None
+                    break
+            return s, out, default
+    return None, [], None
 
 
 def check_threshold_dispatch(ctx: Ctx):
@@ -81,36 +91,29 @@ def check_threshold_dispatch(ctx: Ctx):
     fi = m.func(f"{IMG}.locate_droplets")
     fv = view(m, fi)
     site = fi.qualname
+    top, table, default = threshold_table(fv, fi)
     names = set()
-    has_else_float = False
-    for s in fv.statements():
-        if isinstance(s, ast.If) and "threshold" in names_in(s.test) and any(isinstance(n, ast.Constant) and isinstance(n.value, str) for n in ast.walk(s.test)):
-            cur = s
-            while isinstance(cur, ast.If):
-                for n in ast.walk(cur.test):
-                    if isinstance(n, ast.Constant) and isinstance(n.value, str):
-                        names.add(n.value)
-                if len(cur.orelse) == 1 and isinstance(cur.orelse[0], ast.If):
-                    cur = cur.orelse[0]
-                else:
-                    has_else_float = any(isinstance(x, ast.Assign) and U(x.value) == "float(threshold)" for x in cur.orelse)
-                    break
-            break
+    for ns, body in table:
+        names |= ns
+    has_else_float = bool(default) and any(isinstance(x, (ast.Assign, ast.Return)) and x.value is not None and U(x.value) == "float(threshold)" for x in default)
     want = {"auto", "extrema", "mean", "otsu"}
-    ctx.decide(names == want and has_else_float, "EXHAUST", site + ":threshold", fi,
-               "threshold rules 'auto', 'extrema', 'mean', 'otsu' and the numeric fall-through are all handled",
-               f"threshold dispatch handles {sorted(names)} (numeric fall-through: {has_else_float}); documented rules are {sorted(want)}: an undocumented omission reaches float('<name>') and raises ValueError")
+    if top is None:
+        ctx.undecided("EXHAUST", site + ":threshold", fi, "threshold dispatch not found")
+    else:
+        ctx.decide(names == want and has_else_float, "EXHAUST", site + ":threshold", (fi, top),
+                   "threshold rules 'auto', 'extrema', 'mean', 'otsu' and the numeric fall-through are all handled",
+                   f"threshold dispatch handles {sorted(names)} (numeric fall-through: {has_else_float}); documented rules are {sorted(want)}: an undocumented omission reaches float('<name>') and raises ValueError")
     # documented errors
     ok_modes = False
     ok_type = False
     for s in fv.statements():
         if isinstance(s, ast.If) and s.body and isinstance(s.body[0], ast.Raise):
-            t = U(s.test)
             exc = s.body[0].exc
             en = dotted(exc.func) if isinstance(exc, ast.Call) else dotted(exc)
-            if t in ("modes > 0 and dim not in [2, 3]", "modes > 0 and dim not in (2, 3)", "modes > 0 and dim not in {2, 3}") and en == "ValueError":
+            parts = {U(t).replace("(2, 3)", "[2, 3]").replace("{2, 3}", "[2, 3]") for t, p in flat_tests(s.test) if p}
+            if parts == {"modes > 0", "dim not in [2, 3]"} and en == "ValueError":
                 ok_modes = True
-            if t == "not isinstance(phase_field, ScalarField)" and en == "TypeError":
+            if U(s.test) == f"not isinstance({fi.params[0]}, ScalarField)" and en == "TypeError":
                 ok_type = True
     ctx.decide(ok_modes, "EXHAUST", site + ":modes", fi, "perturbation modes outside 2d/3d raise the documented ValueError",
                "requesting perturbation modes in a dimension other than 2 or 3 does not raise the documented ValueError up front")
